@@ -176,6 +176,18 @@ func (g *Gen) RandPower(style int) gpbft.StoragePower {
 	}
 }
 
+// wideID: actor ids are arbitrary uint64s; a tenth of them are taken from the top half of the range (2^63 + x,
+// 2^64 - x), so that tables mix ids more than 2^63 apart — where a comparison by subtraction would go wrong.
+func (g *Gen) wideID(id uint64) uint64 {
+	switch g.Rng.Intn(20) {
+	case 0:
+		return 1<<63 + id
+	case 1:
+		return ^uint64(0) - id + 1
+	}
+	return id
+}
+
 // RandTable: n entries, distinct ids drawn from [1, idRange], canonical order.
 func (g *Gen) RandTable(n, idRange, style int) gpbft.PowerEntries {
 	if idRange < n {
@@ -184,7 +196,7 @@ func (g *Gen) RandTable(n, idRange, style int) gpbft.PowerEntries {
 	used := map[uint64]bool{}
 	t := make(gpbft.PowerEntries, 0, n)
 	for len(t) < n {
-		id := uint64(1 + g.Rng.Intn(idRange))
+		id := g.wideID(uint64(1 + g.Rng.Intn(idRange)))
 		if used[id] {
 			continue
 		}
@@ -207,7 +219,7 @@ func (g *Gen) Mutate(t gpbft.PowerEntries, nmut, idRange, style int) gpbft.Power
 				used[e.ID] = true
 			}
 			for tries := 0; tries < 50; tries++ {
-				id := gpbft.ActorID(1 + r.Intn(idRange+5))
+				id := gpbft.ActorID(g.wideID(uint64(1 + r.Intn(idRange+5))))
 				if !used[id] {
 					out = append(out, gpbft.PowerEntry{ID: id, Power: g.RandPower(style), PubKey: g.NewKey()})
 					break
